@@ -9,39 +9,67 @@ use crate::stubs::*;
 use cascette_crypto::{ContentKey, EncodingKey};
 use cascette_formats::encoding::{CKeyPageEntry, EKeyPageEntry, ESpecTable, EncodingFile, EncodingHeader, IndexEntry, Page};
 
-/// N symbolic 16-byte keys (drawn as u128 words: no per-byte loop for the model checker to unwind).
-fn any_keys<const N: usize>() -> [[u8; 16]; N] {
-    let w: [u128; N] = kani::any();
+/// N <= 6 symbolic 16-byte keys (drawn as u128 words and written without a loop, so that the harness
+/// itself does not force a larger unwind bound than the code under test needs).
+pub fn any_keys<const N: usize>() -> [[u8; 16]; N] {
+    assert!(N <= 6);
     let mut out = [[0u8; 16]; N];
-    let mut g = 0;
-    while g < N {
-        out[g] = w[g].to_be_bytes();
-        g += 1;
+    if N > 0 {
+        out[0] = kani::any::<u128>().to_be_bytes();
+    }
+    if N > 1 {
+        out[1] = kani::any::<u128>().to_be_bytes();
+    }
+    if N > 2 {
+        out[2] = kani::any::<u128>().to_be_bytes();
+    }
+    if N > 3 {
+        out[3] = kani::any::<u128>().to_be_bytes();
+    }
+    if N > 4 {
+        out[4] = kani::any::<u128>().to_be_bytes();
+    }
+    if N > 5 {
+        out[5] = kani::any::<u128>().to_be_bytes();
     }
     out
 }
 
-fn any_ekeys<const N: usize>() -> [[[u8; 16]; 2]; N] {
+pub fn any_ekeys<const N: usize>() -> [[[u8; 16]; 2]; N] {
+    assert!(N <= 6);
     let mut out = [[[0u8; 16]; 2]; N];
-    let mut g = 0;
-    while g < N {
-        out[g] = any_keys::<2>();
-        g += 1;
+    if N > 0 {
+        out[0] = any_keys::<2>();
+    }
+    if N > 1 {
+        out[1] = any_keys::<2>();
+    }
+    if N > 2 {
+        out[2] = any_keys::<2>();
+    }
+    if N > 3 {
+        out[3] = any_keys::<2>();
+    }
+    if N > 4 {
+        out[4] = any_keys::<2>();
+    }
+    if N > 5 {
+        out[5] = any_keys::<2>();
     }
     out
 }
 
 #[inline]
-fn kv(b: &[u8; 16]) -> u128 {
+pub fn kv(b: &[u8; 16]) -> u128 {
     u128::from_be_bytes(*b)
 }
 
 /// Number of encoding keys of the g-th content key (concrete pattern 1,2,1,2,..).
-const fn nk(g: usize) -> usize {
+pub const fn nk(g: usize) -> usize {
     1 + (g % 2)
 }
 
-fn mk_ckey_file(shape: &[usize], keys: &[[u8; 16]], ek: &[[[u8; 16]; 2]]) -> EncodingFile {
+pub fn mk_ckey_file(shape: &[usize], keys: &[[u8; 16]], ek: &[[[u8; 16]; 2]]) -> EncodingFile {
     let mut pages = Vec::new();
     let mut index = Vec::new();
     let (mut g, mut p) = (0, 0);
@@ -75,31 +103,99 @@ fn mk_ckey_file(shape: &[usize], keys: &[[u8; 16]], ek: &[[[u8; 16]; 2]]) -> Enc
     }
 }
 
-/// Linear scan: position of `probe` among all keys (keys are distinct).
-fn scan(keys: &[[u8; 16]], probe: &[u8; 16]) -> Option<usize> {
+/// Linear scan: position of `probe` among all keys (keys are distinct).  Written out for <= 6 keys.
+pub fn scan(keys: &[[u8; 16]], probe: &[u8; 16]) -> Option<usize> {
+    let n = keys.len();
+    assert!(n <= 6);
+    let p = kv(probe);
     let mut found = None;
-    let mut g = 0;
-    while g < keys.len() {
-        if kv(&keys[g]) == kv(probe) {
-            found = Some(g);
-        }
-        g += 1;
+    if n > 0 && kv(&keys[0]) == p {
+        found = Some(0);
+    }
+    if n > 1 && kv(&keys[1]) == p {
+        found = Some(1);
+    }
+    if n > 2 && kv(&keys[2]) == p {
+        found = Some(2);
+    }
+    if n > 3 && kv(&keys[3]) == p {
+        found = Some(3);
+    }
+    if n > 4 && kv(&keys[4]) == p {
+        found = Some(4);
+    }
+    if n > 5 && kv(&keys[5]) == p {
+        found = Some(5);
     }
     found
 }
 
-fn assume_increasing(keys: &[[u8; 16]]) {
-    let mut g = 0;
-    while g + 1 < keys.len() {
-        kani::assume(kv(&keys[g]) < kv(&keys[g + 1]));
-        g += 1;
+pub fn assume_increasing(keys: &[[u8; 16]]) {
+    let n = keys.len();
+    assert!(n <= 6);
+    if n > 1 {
+        kani::assume(kv(&keys[0]) < kv(&keys[1]));
+    }
+    if n > 2 {
+        kani::assume(kv(&keys[1]) < kv(&keys[2]));
+    }
+    if n > 3 {
+        kani::assume(kv(&keys[2]) < kv(&keys[3]));
+    }
+    if n > 4 {
+        kani::assume(kv(&keys[3]) < kv(&keys[4]));
+    }
+    if n > 5 {
+        kani::assume(kv(&keys[4]) < kv(&keys[5]));
     }
 }
 
-macro_rules! enc_ckey_single {
-    ($name:ident, $n:expr, $shape:expr) => {
+macro_rules! enc_ckey_find {
+    ($name:ident, $n:expr, $shape:expr, $u:expr) => {
         #[kani::proof]
-        #[kani::unwind(7)]
+        #[kani::unwind($u)]
+        fn $name() {
+            const N: usize = $n;
+            const SHAPE: &[usize] = &$shape;
+            let keys: [[u8; 16]; N] = any_keys::<N>();
+            let ek: [[[u8; 16]; 2]; N] = any_ekeys::<N>();
+            let probe: [u8; 16] = kani::any::<u128>().to_be_bytes();
+            assume_increasing(&keys);
+            let f = mk_ckey_file(SHAPE, &keys, &ek);
+            let want = scan(&keys, &probe);
+            let pk = ContentKey::from_bytes(probe);
+            let r = f.find_encoding(&pk);
+            match (r, want) {
+                (None, None) => {}
+                (Some(e), Some(g)) => assert!(kv(e.as_bytes()) == kv(&ek[g][0]), "find_encoding returned another entry's key"),
+                (Some(_), None) => assert!(false, "find_encoding found a key that was never inserted"),
+                (None, Some(_)) => assert!(false, "find_encoding missed an inserted key"),
+            }
+            let first_of_last = N - SHAPE[SHAPE.len() - 1];
+            kani::cover!(want == Some(first_of_last), "probe is the first key of the last page");
+            kani::cover!(want == Some(first_of_last - 1), "probe is the last key of the page before");
+            kani::cover!(want.is_none() && kv(&probe) > kv(&keys[first_of_last]), "absent probe inside the last page's range");
+            std::mem::forget(f);
+        }
+    };
+}
+// @family prop=C03 tier=quick timeout=900 role=encoding-ckey-find
+// @bounds shape per harness = entries per CKey page (name: p<entries>_<entries>..), 2-3 pages x 1-2 entries; all 16 bytes of every content key, of every encoding key (1 or 2 per content key, pattern 1,2,1,2..) and of the probe symbolic (so present keys, key+-1 neighbours, first key of a later page, all-00 / all-FF are included)
+// @encodes cascette_formats::encoding::EncodingFile::find_encoding
+// @assumes builder invariant: pages non-empty, content keys strictly increasing over the concatenated pages, index first_key = first entry key of its page (established for EncodingBuilder by c03_enc_builder_*); CBMC flags from Cargo.toml: --unwindset memcmp.0:18, --max-field-sensitivity-array-size 1024
+// @catches partition_point with < instead of <= (first key of a later page lost), page_idx off by one, scan of the wrong page, first vs last encoding key, key compared on fewer than 16 bytes
+enc_ckey_find!(c03_enc_ckey_find_p2_2, 4, [2, 2], 3);
+enc_ckey_find!(c03_enc_ckey_find_p1_2_1, 4, [1, 2, 1], 4);
+enc_ckey_find!(c03_enc_ckey_find_p2_1_2, 5, [2, 1, 2], 4);
+// @end
+
+// find_all_encodings clones the found entry's Vec; with more than one page the entry (and so the
+// size of the clone) is symbolic, which the model checker cannot handle (symbolic-size heap object).
+// Shapes are kept tiny for that reason.
+macro_rules! enc_ckey_find_all {
+    ($name:ident, $n:expr, $shape:expr, $u:expr) => {
+        #[kani::proof]
+        #[kani::unwind($u)]
         fn $name() {
             const N: usize = $n;
             const SHAPE: &[usize] = &$shape;
@@ -111,14 +207,6 @@ macro_rules! enc_ckey_single {
             let f = mk_ckey_file(SHAPE, &keys, &ek);
             let want = scan(&keys, &probe);
             let pk = ContentKey::from_bytes(probe);
-
-            let r = f.find_encoding(&pk);
-            match (r, want) {
-                (None, None) => {}
-                (Some(e), Some(g)) => assert!(kv(e.as_bytes()) == kv(&ek[g][0]), "find_encoding returned another entry's key"),
-                (Some(_), None) => assert!(false, "find_encoding found a key that was never inserted"),
-                (None, Some(_)) => assert!(false, "find_encoding missed an inserted key"),
-            }
             let ra = f.find_all_encodings(&pk);
             match want {
                 None => assert!(ra.is_empty(), "find_all_encodings found a key that was never inserted"),
@@ -129,29 +217,34 @@ macro_rules! enc_ckey_single {
                     }
                 }
             }
-            let first_of_last = N - SHAPE[SHAPE.len() - 1];
-            kani::cover!(want == Some(first_of_last), "probe is the first key of the last page");
-            kani::cover!(want == Some(first_of_last - 1), "probe is the last key of the page before");
-            kani::cover!(want.is_none() && kv(&probe) > kv(&keys[first_of_last]), "absent probe inside the last page's range");
+            kani::cover!(want == Some(0), "probe is the first key of the first page");
+            kani::cover!(want == Some(N - 1) && j == 1, "last key, second encoding key observed");
+            kani::cover!(want.is_none() && kv(&probe) < kv(&keys[0]), "absent probe below the first page");
             std::mem::forget(ra);
             std::mem::forget(f);
         }
     };
 }
-// @family prop=C03 tier=quick timeout=900 role=encoding-ckey-lookup
-// @bounds shape per harness = entries per CKey page (name: p<entries>_<entries>..), 2-3 pages x 1-2 entries; all 16 bytes of every content key, of every encoding key (1 or 2 per content key, pattern 1,2,1,2..) and of the probe symbolic (so present keys, key+-1 neighbours, first key of a later page, all-00 / all-FF are included)
-// @encodes cascette_formats::encoding::EncodingFile::find_encoding, cascette_formats::encoding::EncodingFile::find_all_encodings
-// @assumes builder invariant: pages non-empty, content keys strictly increasing over the concatenated pages, index first_key = first entry key of its page (established for EncodingBuilder by c03_enc_builder_*)
-// @catches partition_point with < instead of <= (first key of a later page lost), page_idx off by one, scan of the wrong page, first vs last encoding key, key compared on fewer than 16 bytes
-enc_ckey_single!(c03_enc_ckey_single_p2_2, 4, [2, 2]);
-enc_ckey_single!(c03_enc_ckey_single_p1_2_1, 4, [1, 2, 1]);
-enc_ckey_single!(c03_enc_ckey_single_p2_1_2, 5, [2, 1, 2]);
+// @family prop=C03 tier=quick timeout=900 role=encoding-ckey-find-all
+// @bounds one CKey page with 2 entries (p2) and two pages with 1 entry each (p1_1: 1 resp. 2 encoding keys, so the page choice decides the size of the cloned list); larger multi-page shapes make the cloned Vec's size symbolic over more cases and ran out of memory; 16-byte content keys, encoding keys (1,2,1,2 per entry) and probe fully symbolic
+// @encodes cascette_formats::encoding::EncodingFile::find_all_encodings
+// @assumes builder invariant as in encoding-ckey-find
+// @catches <= vs < on a page's first key, page_idx off by one, wrong page, only the first / a truncated list of encoding keys returned, order of encoding keys
+enc_ckey_find_all!(c03_enc_ckey_find_all_p2, 2, [2], 3);
+enc_ckey_find_all!(c03_enc_ckey_find_all_p1_1, 2, [1, 1], 3);
+// @end
+// @family prop=C03 tier=thorough timeout=3300 mem=24 role=encoding-ckey-find-all-p4
+// @bounds one page with 4 entries; everything else as above
+// @encodes cascette_formats::encoding::EncodingFile::find_all_encodings
+// @assumes builder invariant as in encoding-ckey-find
+// @catches as encoding-ckey-find-all with a longer in-page scan
+enc_ckey_find_all!(c03_enc_ckey_find_all_p4, 4, [4], 5);
 // @end
 
 macro_rules! enc_ckey_batch {
-    ($name:ident, $n:expr, $shape:expr) => {
+    ($name:ident, $n:expr, $shape:expr, $u:expr, $all:expr) => {
         #[kani::proof]
-        #[kani::unwind(7)]
+        #[kani::unwind($u)]
         fn $name() {
             const N: usize = $n;
             const SHAPE: &[usize] = &$shape;
@@ -165,47 +258,59 @@ macro_rules! enc_ckey_batch {
             let f = mk_ckey_file(SHAPE, &keys, &ek);
             let pks = [ContentKey::from_bytes(probes[0]), ContentKey::from_bytes(probes[1])];
             let want = scan(&keys, &probes[q]);
-
-            let rb = f.batch_find_encodings(&pks);
-            assert!(rb.len() == 2, "batch result length");
-            match (rb[q], want) {
-                (None, None) => {}
-                (Some(e), Some(g)) => assert!(kv(e.as_bytes()) == kv(&ek[g][0]), "batch_find_encodings: result of another key"),
-                (Some(_), None) => assert!(false, "batch_find_encodings found a key that was never inserted"),
-                (None, Some(_)) => assert!(false, "batch_find_encodings missed an inserted key"),
-            }
-            let ra = f.batch_find_all_encodings(&pks);
-            assert!(ra.len() == 2, "batch result length");
-            match want {
-                None => assert!(ra[q].is_empty(), "batch_find_all_encodings found a key that was never inserted"),
-                Some(g) => {
-                    assert!(ra[q].len() == nk(g), "batch_find_all_encodings: wrong number of encoding keys");
-                    if j < ra[q].len() {
-                        assert!(kv(ra[q][j].as_bytes()) == kv(&ek[g][j]), "batch_find_all_encodings: wrong encoding key");
+            if !$all {
+                let rb = f.batch_find_encodings(&pks);
+                assert!(rb.len() == 2, "batch result length");
+                match (rb[q], want) {
+                    (None, None) => {}
+                    (Some(e), Some(g)) => assert!(kv(e.as_bytes()) == kv(&ek[g][0]), "batch_find_encodings: result of another key"),
+                    (Some(_), None) => assert!(false, "batch_find_encodings found a key that was never inserted"),
+                    (None, Some(_)) => assert!(false, "batch_find_encodings missed an inserted key"),
+                }
+                std::mem::forget(rb);
+            } else {
+                let ra = f.batch_find_all_encodings(&pks);
+                assert!(ra.len() == 2, "batch result length");
+                match want {
+                    None => assert!(ra[q].is_empty(), "batch_find_all_encodings found a key that was never inserted"),
+                    Some(g) => {
+                        assert!(ra[q].len() == nk(g), "batch_find_all_encodings: wrong number of encoding keys");
+                        if j < ra[q].len() {
+                            assert!(kv(ra[q][j].as_bytes()) == kv(&ek[g][j]), "batch_find_all_encodings: wrong encoding key");
+                        }
                     }
                 }
+                std::mem::forget(ra);
             }
             let first_of_last = N - SHAPE[SHAPE.len() - 1];
             kani::cover!(kv(&probes[0]) > kv(&probes[1]) && want.is_some(), "unsorted batch, observed probe present");
             kani::cover!(want == Some(first_of_last), "observed probe is the first key of the last page");
             kani::cover!(kv(&probes[0]) == kv(&probes[1]) && want.is_some(), "duplicate probes");
-            std::mem::forget(ra);
-            std::mem::forget(rb);
             std::mem::forget(f);
         }
     };
 }
 // @family prop=C03 tier=quick timeout=900 role=encoding-ckey-batch
-// @bounds shape per harness as above; batch of 2 fully symbolic probes in any order (sorted, unsorted, equal), observed position symbolic
-// @encodes cascette_formats::encoding::EncodingFile::batch_find_encodings, cascette_formats::encoding::EncodingFile::batch_find_all_encodings
-// @assumes builder invariant as in encoding-ckey-lookup
+// @bounds 2 CKey pages x 2 entries; batch of 2 fully symbolic probes in any order (sorted, unsorted, equal), observed position symbolic
+// @encodes cascette_formats::encoding::EncodingFile::batch_find_encodings
+// @assumes builder invariant as in encoding-ckey-find
 // @catches >= vs > against the next page's first key, result stored at the sorted instead of the original position, cursor not advanced / advanced too far between pages, probe below the first page
-enc_ckey_batch!(c03_enc_ckey_batch_p2_2, 4, [2, 2]);
-enc_ckey_batch!(c03_enc_ckey_batch_p1_2_1, 4, [1, 2, 1]);
+enc_ckey_batch!(c03_enc_ckey_batch_p2_2, 4, [2, 2], 3, false);
 // @end
+// @family prop=C03 tier=thorough timeout=3300 mem=24 role=encoding-ckey-batch-wide
+// @bounds 3 pages (1,2,1 entries) for batch_find_encodings; otherwise as encoding-ckey-batch
+// @encodes cascette_formats::encoding::EncodingFile::batch_find_encodings
+// @assumes builder invariant as in encoding-ckey-find
+// @catches as encoding-ckey-batch, with a middle page (both neighbours present)
+enc_ckey_batch!(c03_enc_ckey_batch_p1_2_1, 4, [1, 2, 1], 4, false);
+// @end
+// batch_find_all_encodings is OUT OF REACH (stated in the report): `results[orig_idx].clone_from(&entry.encoding_keys)`
+// writes a Vec at a symbolic position; measured: batch of 2 on 2x2 entries exhausts 24 GB, batch of 1 exhausts 16 GB
+// during propositional reduction (harness body = enc_ckey_batch! with the last argument `true`).  Its page-walk is a
+// textual copy of batch_find_encodings, which is covered above.
 
 // ---- EKey side ---------------------------------------------------------------------------------
-fn mk_ekey_file(shape: &[usize], keys: &[[u8; 16]], espec: &[u32]) -> EncodingFile {
+pub fn mk_ekey_file(shape: &[usize], keys: &[[u8; 16]], espec: &[u32]) -> EncodingFile {
     let mut pages = Vec::new();
     let mut index = Vec::new();
     let (mut g, mut p) = (0, 0);
@@ -237,8 +342,32 @@ fn mk_ekey_file(shape: &[usize], keys: &[[u8; 16]], espec: &[u32]) -> EncodingFi
     }
 }
 
+pub fn any_u32s<const N: usize>() -> [u32; N] {
+    assert!(N <= 6);
+    let mut out = [0u32; N];
+    if N > 0 {
+        out[0] = kani::any();
+    }
+    if N > 1 {
+        out[1] = kani::any();
+    }
+    if N > 2 {
+        out[2] = kani::any();
+    }
+    if N > 3 {
+        out[3] = kani::any();
+    }
+    if N > 4 {
+        out[4] = kani::any();
+    }
+    if N > 5 {
+        out[5] = kani::any();
+    }
+    out
+}
+
 /// The table has two strings of length 1 and 2: the length identifies the entry.
-fn spec_len(idx: u32) -> Option<usize> {
+pub fn spec_len(idx: u32) -> Option<usize> {
     match idx {
         0 => Some(1),
         1 => Some(2),
@@ -247,14 +376,14 @@ fn spec_len(idx: u32) -> Option<usize> {
 }
 
 macro_rules! enc_ekey_lookup {
-    ($name:ident, $n:expr, $shape:expr) => {
+    ($name:ident, $n:expr, $shape:expr, $u:expr, $batch:expr) => {
         #[kani::proof]
-        #[kani::unwind(7)]
+        #[kani::unwind($u)]
         fn $name() {
             const N: usize = $n;
             const SHAPE: &[usize] = &$shape;
             let keys: [[u8; 16]; N] = any_keys::<N>();
-            let espec: [u32; N] = kani::any();
+            let espec: [u32; N] = any_u32s::<N>();
             let probes: [[u8; 16]; 2] = any_keys::<2>();
             let q: usize = kani::any();
             kani::assume(q < 2);
@@ -265,25 +394,36 @@ macro_rules! enc_ekey_lookup {
                 Some(g) => spec_len(espec[g]),
                 None => None,
             };
-            let r = f.find_espec(&pks[q]);
-            assert!(r.map(|s| s.len()) == want, "find_espec differs from the linear scan");
-            let rb = f.batch_find_especs(&pks);
-            assert!(rb.len() == 2, "batch result length");
-            assert!(rb[q].map(|s| s.len()) == want, "batch_find_especs differs from the linear scan");
+            if !$batch {
+                let r = f.find_espec(&pks[q]);
+                assert!(r.map(|s| s.len()) == want, "find_espec differs from the linear scan");
+            } else {
+                let rb = f.batch_find_especs(&pks);
+                assert!(rb.len() == 2, "batch result length");
+                assert!(rb[q].map(|s| s.len()) == want, "batch_find_especs differs from the linear scan");
+                std::mem::forget(rb);
+            }
             let first_of_last = N - SHAPE[SHAPE.len() - 1];
             kani::cover!(scan(&keys, &probes[q]) == Some(first_of_last) && want == Some(2), "first key of the last page, second espec");
             kani::cover!(kv(&probes[0]) > kv(&probes[1]) && want.is_some(), "unsorted batch, observed probe present");
             kani::cover!(scan(&keys, &probes[q]).is_some() && want.is_none(), "present key with an espec index outside the table");
-            std::mem::forget(rb);
             std::mem::forget(f);
         }
     };
 }
 // @family prop=C03 tier=quick timeout=900 role=encoding-ekey-lookup
-// @bounds shape per harness = entries per EKey page; all 16 bytes of every encoding key and of both probes symbolic, espec_index symbolic over u32 (table has 2 strings), batch of 2 probes in any order, observed position symbolic
+// @bounds shape per harness = entries per EKey page; *_find_* drive find_espec, *_batch_* drive batch_find_especs; all 16 bytes of every encoding key and of both probes symbolic, espec_index symbolic over u32 (table has 2 strings), batch of 2 probes in any order, observed position symbolic
 // @encodes cascette_formats::encoding::EncodingFile::find_espec, cascette_formats::encoding::EncodingFile::batch_find_especs, cascette_formats::encoding::ESpecTable::get
 // @assumes builder invariant: pages non-empty, encoding keys strictly increasing, index first_key = first entry key
 // @catches page-boundary comparison (<= vs <, >= vs >), wrong page, espec index off by one, result stored at the sorted position
-enc_ekey_lookup!(c03_enc_ekey_lookup_p2_2, 4, [2, 2]);
-enc_ekey_lookup!(c03_enc_ekey_lookup_p1_2_1, 4, [1, 2, 1]);
+enc_ekey_lookup!(c03_enc_ekey_find_p2_2, 4, [2, 2], 3, false);
+enc_ekey_lookup!(c03_enc_ekey_find_p1_2_1, 4, [1, 2, 1], 4, false);
+enc_ekey_lookup!(c03_enc_ekey_batch_p2_2, 4, [2, 2], 3, true);
+// @end
+// @family prop=C03 tier=thorough timeout=3300 mem=24 role=encoding-ekey-batch-wide
+// @bounds 3 EKey pages (1,2,1 entries), otherwise as encoding-ekey-lookup
+// @encodes cascette_formats::encoding::EncodingFile::batch_find_especs
+// @assumes builder invariant as in encoding-ekey-lookup
+// @catches as encoding-ekey-lookup, with a middle page
+enc_ekey_lookup!(c03_enc_ekey_batch_p1_2_1, 4, [1, 2, 1], 4, true);
 // @end
